@@ -1,6 +1,6 @@
 From MST Require Import Base TreeM Spec TreeUpsert TreeHash TreeInv TreeCanon.
 
-Section C01.
+Section HistIndep.
 Variable digest V : Type.
 Variable H : list (tok digest V) -> digest.
 Variable lvl_of : N -> N.
@@ -78,4 +78,4 @@ Proof.
   destruct t1' as [p1 h1], t2' as [p2 h2]. cbn [TreeM.root TreeM.root_hash] in *. rewrite RH1, RH2, Ep, Ed. reflexivity.
 Qed.
 Print Assumptions C01_history_independence.
-End C01.
+End HistIndep.
